@@ -185,7 +185,9 @@ def main():
         else:
             known_lines.append("KNOWN-FINDING: property=%s %s" % (pid, ent["text"]))
 
-    # 2. generated search
+    # 2. generated search (open findings are excluded by construction inside the engine and counted)
+    if open_sigs:
+        spec["extra_args"] = spec.get("extra_args", []) + ["--known", ",".join(sorted(open_sigs))]
     phases = spec["phases"][tier]
     merged = dict(evaluations=0, nontrivial=0, api_calls=0, skipped_steps=0, leak_overflow=0, classes={}, features={}, counters={},
                   foreign_oracle_notes={}, samples=[], note_samples=[], subspaces=[], rule="", phases=[])
